@@ -156,3 +156,35 @@ class StepCounter(object):
     def reset(self, budget=None):
         self.count = 0
         self.budget = budget
+
+
+class CpuBudgetExceeded(BaseException):
+    """Raised inside the observed call by cpu_guard (a BaseException: library `except Exception` cannot swallow it)."""
+
+
+class cpu_guard(object):
+    """Bound the CPU time (not the wall-clock time) one observed call may burn: ITIMER_PROF counts only while this
+    process is executing (user or system mode), so load on the machine does not move it.  The logical step counter cannot see work
+    done inside a single C call (a gigantic integer power, say); this can, because CPython's long arithmetic polls for
+    signals.  Main thread only; nests by restoring the previous timer."""
+
+    def __init__(self, seconds):
+        self.seconds = seconds
+
+    def _fire(self, signum, frame):
+        raise CpuBudgetExceeded('more than %s CPU seconds inside one call' % self.seconds)
+
+    def __enter__(self):
+        import signal
+        self._signal = signal
+        self._old_handler = signal.signal(signal.SIGPROF, self._fire)
+        self._old_timer = signal.setitimer(signal.ITIMER_PROF, self.seconds)
+        return self
+
+    def __exit__(self, *exc):
+        signal = self._signal
+        signal.setitimer(signal.ITIMER_PROF, 0)
+        signal.signal(signal.SIGPROF, self._old_handler)
+        if self._old_timer and self._old_timer[0] > 0:
+            signal.setitimer(signal.ITIMER_PROF, *self._old_timer)
+        return False
